@@ -648,9 +648,48 @@ def r25e_values_mut(text, log):
     return text[:mt.start()] + new + text[bc + 1:]
 
 
+def r34b_map_transpose_try(text, log):
+    """R34b: every `X.map(|P| E).transpose()?` (X an Option, E a Result) -> `match X { Some(P) => Some(E?), None => None }`
+    (the std definitions of Option::map and Option::transpose followed by `?`).  The receiver X is the expression that starts
+    after the preceding `=` of the statement (checked: the statement is `let N = X.map(..).transpose()?;`)."""
+    n = 0
+    while True:
+        m = L.mask(text)
+        mt = re.search(r"\blet\s+(\w+)\s*=\s*", m)
+        found = None
+        for mt in re.finditer(r"\blet\s+(\w+)\s*=\s*", m):
+            semi = L.depth0_find(m, mt.end(), len(m), ";")
+            if semi < 0:
+                continue
+            stmt = m[mt.end():semi]
+            mm = re.search(r"\.map\(", stmt)
+            if not mm or not re.search(r"\)\s*\.transpose\(\)\s*\?\s*$", stmt):
+                continue
+            found = (mt, semi, mm)
+            break
+        if not found:
+            break
+        mt, semi, mm = found
+        recv = text[mt.end():mt.end() + mm.start()].strip()
+        po = mt.end() + mm.end() - 1
+        pc = L.match_close(m, po)
+        clos = text[po + 1:pc].strip()
+        cm = re.match(r"\|\s*(\w+)\s*\|\s*", clos)
+        if not cm or not re.fullmatch(r"\s*\.transpose\(\)\s*\?\s*", m[pc + 1:semi]):
+            raise Lost("R34b: not `X.map(|p| E).transpose()?`")
+        pat, body = cm.group(1), clos[cm.end():].strip()
+        after = f"let {mt.group(1)} = match {recv} {{ Some({pat}) => Some({body}?), None => None }}"
+        log.append({"rule": "R34b-map-transpose-try", "before": re.sub(r"\s+", " ", text[mt.start():semi]), "after": after})
+        text = text[:mt.start()] + after + text[semi:]
+        n += 1
+    if n == 0:
+        raise Lost("R34b: no `let N = X.map(|p| E).transpose()?;` statement")
+    return text
+
+
 STRUCTURAL = {"R11c": r11_closure, "R14": r14_all, "R16m": r16_drop_methods, "R12d": r12_debug_assert, "R5": r5_for_bytes, "R7": r7_mut_self, "R0": r0_named_return, "R4": r4_format, "R12": r12_unreachable,
               "R6": r6_for_enumerate, "R10": r10_drop_loop, "R25": r25_hashmap_iter_mut, "R25b": r25b_hashmap_into_iter, "R25c": r25c_hashmap_retain, "R25d": r25d_amount_iter, "R26": r26_forward_ref_op, "R27": r27_entry_match, "R28": r28_nested_entry_binding, "R29": r29_entry_or_insert_with,
-              "R30": r30_flat_map_filter_map, "R6b": r6b_for_tuple_in_vec, "R25e": r25e_values_mut}
+              "R30": r30_flat_map_filter_map, "R34b": r34b_map_transpose_try, "R6b": r6b_for_tuple_in_vec, "R25e": r25e_values_mut}
 
 
 def apply_rewrites(text, rewrites, log):
